@@ -75,16 +75,16 @@ WhyOut(env, T, codec, fuel) ==
          ELSE IF T.sz.ext THEN "SIZE-EXTENSIBLE"
          ELSE IF T.sz.ub > 64 THEN "BITS-GT64"
          ELSE ""
-    [] T.k = "ENUM" ->
-         IF T.adds # <<>> THEN "ENUM-ADDITIONS" ELSE ""          \* an empty "..." is in the subset
+    [] T.k = "ENUM" ->                                            \* an empty "..." is in the subset;
+         IF T.adds # <<>> /\ codec # "oer" THEN "ENUM-ADDITIONS" ELSE ""   \* additions "only in the OER generator"
     [] T.k = "SEQ" ->
          IF T.adds # <<>> /\ codec # "oer" THEN "SEQ-ADDITIONS"   \* "only supported in the OER generator"
          ELSE IF HasGroup(T) THEN "SEQ-ADDITION-GROUP"
          ELSE LET ms == AllMembers(T)
               IN FirstNonEmpty([i \in 1..Len(ms) |-> WhyOut(env, ms[i].t, codec, fuel)])
     [] T.k = "CHOICE" ->
-         IF T.adds # <<>> THEN "CHOICE-ADDITIONS"
-         ELSE FirstNonEmpty([i \in 1..Len(T.root) |-> WhyOut(env, T.root[i].t, codec, fuel)])
+         IF T.adds # <<>> /\ codec # "oer" THEN "CHOICE-ADDITIONS"
+         ELSE FirstNonEmpty([i \in 1..Len(AllAlts(T)) |-> WhyOut(env, AllAlts(T)[i].t, codec, fuel)])
     [] T.k = "SEQOF" ->
          IF T.sz.f = "N" \/ T.sz.ubinf THEN "SEQOF-UNBOUNDED"
          ELSE IF T.sz.ext THEN "SIZE-EXTENSIBLE"
